@@ -3,5 +3,5 @@ CONSTANTS
   NPs = {1, 2, 3}
   MaxFields = 2
   Later = {"sigM", "sigK", "sigK2", "grp", "grp3", "grpFT", "tx"}
-  IndDims = {"perms", "acro", "fields", "kids"}
+  IndDims = {}
 INVARIANTS KeepDisjoint NoSigNoPerms FlagsDoNotSign Emit
